@@ -46,8 +46,16 @@ func runLBbuf(c *load.Ctx, r *report.RuleResult) {
 		// a phi all of whose leaves (through other phis) are slices made here stands for one of them
 		for _, b := range fn.Blocks {
 			for _, ins := range b.Instrs {
-				ph, ok := ins.(*ssa.Phi)
-				if !ok {
+				var ph ssa.Value
+				switch x := ins.(type) {
+				case *ssa.Phi:
+					ph = x
+				case *ssa.Call:
+					if _, isSlice := x.Type().Underlying().(*types.Slice); isSlice {
+						ph = x
+					}
+				}
+				if ph == nil {
 					continue
 				}
 				seen := map[ssa.Value]bool{}
@@ -65,6 +73,22 @@ func runLBbuf(c *load.Ctx, r *report.RuleResult) {
 						}
 					case *ssa.MakeSlice:
 						leaves++
+					case *ssa.Call:
+						// a helper that is handed the buffer and returns it or a bigger copy
+						if sc := x.Call.StaticCallee(); sc != nil && load.FuncInModule(sc) {
+							okArg := false
+							for _, a := range x.Call.Args {
+								if _, isSlice := a.Type().Underlying().(*types.Slice); isSlice {
+									walk(a)
+									okArg = true
+								}
+							}
+							if !okArg {
+								all = false
+							}
+						} else {
+							all = false
+						}
 					default:
 						all = false
 					}
@@ -171,6 +195,68 @@ func runLBbuf(c *load.Ctx, r *report.RuleResult) {
 					}
 					if (rel[bo.X] && involvesLen(bo.Y)) || (rel[bo.Y] && involvesLen(bo.X)) {
 						guarded = true
+					}
+				}
+				if !guarded {
+					// or a dominating call of a helper that is given the buffer and the index and compares them
+					for _, gb := range fn.Blocks {
+						if !(gb == b || gb.Dominates(b)) {
+							continue
+						}
+						for _, gi := range gb.Instrs {
+							call, ok := gi.(*ssa.Call)
+							if !ok {
+								continue
+							}
+							sc := call.Call.StaticCallee()
+							if sc == nil || !load.FuncInModule(sc) || sc.Blocks == nil {
+								continue
+							}
+							bufP, idxP := -1, -1
+							for k, a := range call.Call.Args {
+								if made[a] {
+									bufP = k
+								}
+								if rel[a] {
+									idxP = k
+								}
+							}
+							if bufP < 0 || idxP < 0 || bufP >= len(sc.Params) || idxP >= len(sc.Params) {
+								continue
+							}
+							pb, pi := sc.Params[bufP], sc.Params[idxP]
+							for _, hb := range sc.Blocks {
+								iff, ok := hb.Instrs[len(hb.Instrs)-1].(*ssa.If)
+								if !ok {
+									continue
+								}
+								bo, ok := iff.Cond.(*ssa.BinOp)
+								if !ok {
+									continue
+								}
+								lenOf := func(v ssa.Value) bool {
+									var walk func(v ssa.Value, d int) bool
+									walk = func(v ssa.Value, d int) bool {
+										if d > 4 {
+											return false
+										}
+										switch x := v.(type) {
+										case *ssa.Call:
+											if bi, ok := x.Call.Value.(*ssa.Builtin); ok && (bi.Name() == "len" || bi.Name() == "cap") && len(x.Call.Args) == 1 && x.Call.Args[0] == ssa.Value(pb) {
+												return true
+											}
+										case *ssa.BinOp:
+											return walk(x.X, d+1) || walk(x.Y, d+1)
+										}
+										return false
+									}
+									return walk(v, 0)
+								}
+								if (bo.X == ssa.Value(pi) && lenOf(bo.Y)) || (bo.Y == ssa.Value(pi) && lenOf(bo.X)) {
+									guarded = true
+								}
+							}
+						}
 					}
 				}
 				if guarded {
